@@ -155,6 +155,8 @@ def classify(body, pos, end_call, fn_tail_has_flag_test):
     if ifc is not None:
         cond = body[ifc[0]:ifc[1]]
         stmt, _ = next_statement(body, ifc[1])
+        if re.search(r"\bret_value\s*=\s*$", body[ifc[0]:pos]):
+            return "Returned"     # if ((ret_value = X(..)) != FAIL) ...: the call's result is the function's result
         # the condition must actually compare / test the call's value
         if re.search(ERR_EXIT, stmt):
             return "Checked"
@@ -167,7 +169,15 @@ def classify(body, pos, end_call, fn_tail_has_flag_test):
     stmt = body[s:e].strip()
     if re.match(r"return\b", stmt):
         return "Returned"
-    m = re.match(r"\s*([A-Za-z_][A-Za-z0-9_>\.\-\*\(\)\[\] ]*?)\s*=\s*(?:\(\s*EOF\s*==\s*)?(?:\([A-Za-z_0-9 \*]+\)\s*)?$", body[s:pos])
+    head = body[s:pos]
+    # a guarded assignment:  if (c) v = X(..); else v = Y(..);   -- look at the assignment itself
+    pm = re.match(r"\s*(?:else\s+)?(?:if\s*\()", head)
+    if pm:
+        ce = match_paren(head + ")" * 50, pm.end() - 1)
+        if ce <= len(head):
+            head = head[ce:]
+    head = re.sub(r"^\s*else\b", "", head)
+    m = re.match(r"\s*([A-Za-z_][A-Za-z0-9_>\.\-\*\(\)\[\] ]*?)\s*=\s*(?:\(\s*EOF\s*==\s*)?(?:\([A-Za-z_0-9 \*]+\)\s*)?$", head)
     if m:
         var = m.group(1).strip().split()[-1]          # drop a declaration's type ("int ret_value")
         if var == "ret_value":
@@ -175,6 +185,11 @@ def classify(body, pos, end_call, fn_tail_has_flag_test):
             return "Returned"
         rest = body[e:e + 400]
         t = re.match(r"\s*if\s*\(", rest)
+        if not t:                 # the test may follow the other arm of an if/else that assigns the same variable
+            t2 = re.match(r"\s*else\b[^;]*;\s*(?=if\s*\()", rest)
+            if t2:
+                rest = rest[t2.end():]
+                t = re.match(r"\s*if\s*\(", rest)
         if t:
             ce = match_paren(rest, t.end() - 1)
             cond = rest[t.end() - 1:ce]
